@@ -399,7 +399,9 @@ def conclude(a, prop, recs, assumed, R, seed, t0):
             else:
                 undecided.append((r['task'], f"{o['name']}: {o['status']}"))
     for task, o, rp_ in contradictions:
-        if violations:
+        # an obligation left open in this run (e.g. a loop invariant that is no longer preserved, status unknown) means the modular
+        # proof of the clause is incomplete: the firing on the real code is then a witness of the violation, not an engine problem
+        if violations or undecided:
             violations.append({'task': task, 'name': o['name'], 'kind': o['kind'], 'detail': rp_.get('detail'), 'witness': o.get('witness'),
                                'model': o.get('model'), 'replayed': True, 'path': o['path']})
         else:
